@@ -514,6 +514,56 @@ class ReorgDriver(IndexDriver):
                                  applied_height=applied[-1] if applied else -1,
                                  last_commits=self.utxo_commits[-3:]))
 
+    def op_ioerr_when(self, op):
+        """A transient disk error (ENOSPC: the operation fails, nothing of it is applied) at the (skip+1)-th
+        durable operation matching `cond`.  The server either carries on or exits on the exception - through
+        its own shutdown path, which flushes "if safe" - and whatever it leaves behind must reopen as a clean
+        index (op reopen_audit / sync afterwards)."""
+        w = self.w
+        sim = w.sim
+        if w.server is None:
+            w.start()
+        cond, skip = op['cond'], op.get('skip', 0)
+        state = dict(hits=0, fired=False)
+
+        def hook(tag, detail):
+            if state['fired']:
+                return False
+            ok = _is_flush_op(tag, detail) if cond == 'flushop' else True
+            if tag in ('dbcreate', 'mkdir') or '/db/meta' not in w.fs.dirs:
+                ok = False
+            if ok:
+                state['hits'] += 1
+                if state['hits'] > skip:
+                    state['fired'] = True
+                    state['tag'] = tag
+                    state['detail'] = detail
+                    state['dop'] = sim.dops
+                    return True
+            return False
+        sim.ioerr_hook = hook
+        exits_before = len(w.server_exits)
+        try:
+            r = w.run(lambda: state['fired'] and (w.server is None or w.caught_up()), op.get('window', 300.0))
+        finally:
+            sim.ioerr_hook = None
+        if not state['fired']:
+            self.probe('ioerr.not_reached')
+            return
+        self.probe('ioerr.fired')
+        # the failed operation applied nothing: it is no commit
+        self.utxo_commits = [(n, h) for (n, h) in self.utxo_commits if n != state['dop']]
+        self.probe('ioerr.at.' + str(state.get('tag')))
+        self.mark('ioerr', state.get('tag'))
+        if w.server is not None:
+            w.run(None, 30.0)       # the exception may take a moment to bring the server down
+        if w.server is None:
+            self.probe('ioerr.server_exited')
+            self.exit_info = None
+            self.op_reopen_audit(dict(op='reopen_audit', props=(op.get('prop', 'C04'),)))
+        else:
+            self.probe('ioerr.server_survived')
+
     def _on_server_end(self, w):
         self.drop_admin_requests()
 
@@ -809,6 +859,14 @@ class CrashFwdFamily(ReorgFamily):
                 n = rng.randint(1, 5)
                 plan.append(dict(op='mine', n=n, ntx=ntx_list(rng, n), at=round(rng.uniform(0, 3), 3),
                                  seed=rng.getrandbits(32)))
+            if rng.random() < 0.15:
+                # the process dies of a disk error instead (ENOSPC at one durable operation): its own shutdown
+                # path runs, what it leaves must reopen as a clean index
+                plan.append(dict(op='ioerr_when', cond=rng.choice(['flushop', 'flushop', 'anyop']),
+                                 skip=rng.choice([0, 1, 2, 3, 4, 5, 6, 7, 8, 10, 13, 17, 25, 40]), window=300.0,
+                                 prop='C04'))
+                plan.append(dict(op='start'))
+                continue
             plan.append(dict(op='crash_when', cond=rng.choice(['flushop'] * 6 + ['anyop', 'recoveryop']),
                              skip=rng.choice([0, 1, 2, 3, 4, 5, 6, 7, 8, 10, 13, 17, 25, 40]),
                              tear=rng.choice([None, 0.0, 0.5, 0.999]), window=300.0))
@@ -817,7 +875,9 @@ class CrashFwdFamily(ReorgFamily):
         plan.append(dict(op='sync'))
         if tier == 'thorough' and rng.random() < 0.5:
             # fault enumeration: one crash operation, every position of it
-            first = next(i for i, o in enumerate(plan) if o['op'] == 'crash_when')
+            first = next((i for i, o in enumerate(plan) if o['op'] == 'crash_when'), None)
+            if first is None:
+                return dict(family='crashfwd', knobs=k, plan=plan)
             plan = plan[:first + 3] + [dict(op='sync')]
             plan[first]['cond'] = rng.choice(['flushop', 'flushop', 'anyop'])
             return dict(family='crashfwd', knobs=k, plan=plan, enumerate=True)
